@@ -1,51 +1,42 @@
 //! Kernel dispatch: specification kernel name -> real rolling entry point, generic over the
 //! input container, element type, output container, output element type and output path.
-use std::collections::VecDeque;
-
-use tevec::export::ndarray::Array1;
 use tevec::prelude::*;
 use tvh_common::*;
 
-/// output containers the harness can read back
-pub trait OutCont<U>: Vec1<U> {
-    const CNAME: &'static str;
-    fn into_vec(self) -> Vec<U>;
+/// how the result is obtained: returned, written into a buffer the library's own `uninit`
+/// allocated, or written into a caller-built buffer in an unusual layout (outbuf.rs)
+#[derive(Clone, Copy, PartialEq, Debug)]
+pub enum Path {
+    Ret,
+    To,
+    Odd(usize),
 }
-impl<U: Clone> OutCont<U> for Vec<U> {
-    const CNAME: &'static str = "Vec";
-    fn into_vec(self) -> Vec<U> {
-        self
-    }
-}
-impl<U: Clone + Default> OutCont<U> for SpyOut<U> {
-    const CNAME: &'static str = "SpyOut";
-    fn into_vec(self) -> Vec<U> {
-        self.0
-    }
-}
-impl<U: Clone> OutCont<U> for VecDeque<U> {
-    const CNAME: &'static str = "VecDeque";
-    fn into_vec(self) -> Vec<U> {
-        self.into_iter().collect()
-    }
-}
-impl<U: Clone> OutCont<U> for Array1<U> {
-    const CNAME: &'static str = "Array1";
-    fn into_vec(self) -> Vec<U> {
-        self.into_iter().collect()
+impl From<bool> for Path {
+    fn from(to: bool) -> Path {
+        if to { Path::To } else { Path::Ret }
     }
 }
 
 /// call `$m` (returned) or `$mto` (caller buffer) and hand back the output as a Vec
 macro_rules! call {
     ($v:expr, $O:ty, $U:ty, $to:expr; $m:ident, $mto:ident [$($g:tt)*] ( $($arg:expr),* )) => {{
-        if $to {
-            let mut buf = <$O as Vec1<$U>>::uninit($v.len());
-            let r: Option<$O> = $v.$mto::<$O, $U $($g)*>($($arg,)* Some(<$O as Vec1<$U>>::uninit_ref_mut(&mut buf)));
-            assert!(r.is_none(), "a caller-buffer call must return None");
-            unsafe { buf.assume_init() }.into_vec()
-        } else {
-            $v.$m::<$O, $U $($g)*>($($arg),*).into_vec()
+        match Into::<Path>::into($to) {
+            Path::To => {
+                let mut buf = <$O as Vec1<$U>>::uninit($v.len());
+                let r: Option<$O> = $v.$mto::<$O, $U $($g)*>($($arg,)* Some(<$O as Vec1<$U>>::uninit_ref_mut(&mut buf)));
+                assert!(r.is_none(), "a caller-buffer call must return None");
+                unsafe { buf.assume_init() }.into_vec()
+            },
+            Path::Odd(layout) => {
+                let mut odd = <$O as OutCont<$U>>::odd_alloc(layout, $v.len());
+                let r: Option<$O> = $v.$mto::<$O, $U $($g)*>($($arg,)* Some(<$O as OutCont<$U>>::odd_ref(&mut odd)));
+                assert!(r.is_none(), "a caller-buffer call must return None");
+                match <$O as OutCont<$U>>::odd_read(odd) {
+                    Ok(v) => v,
+                    Err(e) => panic!("OUT-OF-BUFFER: {e}"),
+                }
+            },
+            Path::Ret => $v.$m::<$O, $U $($g)*>($($arg),*).into_vec(),
         }
     }};
 }
@@ -120,7 +111,7 @@ pub const CMP_KERNELS: &[&str] =
 pub const PAIR_KERNELS: &[&str] = &["cov", "corr", "alpha", "beta", "resid_mean", "resid_std", "resid_skew"];
 
 /// the null-aware one-series kernels
-pub fn run_valid<T, V, U, O>(k: &str, v: &V, w: usize, mp: Option<usize>, to: bool) -> Result<Vec<U>, String>
+pub fn run_valid<T, V, U, O>(k: &str, v: &V, w: usize, mp: Option<usize>, to: impl Into<Path>) -> Result<Vec<U>, String>
 where
     T: IsNone,
     T::Inner: Number,
@@ -159,7 +150,7 @@ where
 }
 
 /// the plain one-series kernels (no null handling; null-free input only)
-pub fn run_plain<T, V, U, O>(k: &str, v: &V, w: usize, mp: Option<usize>, to: bool) -> Result<Vec<U>, String>
+pub fn run_plain<T, V, U, O>(k: &str, v: &V, w: usize, mp: Option<usize>, to: impl Into<Path>) -> Result<Vec<U>, String>
 where
     T: Number,
     V: Vec1View<T>,
@@ -181,7 +172,7 @@ where
 }
 
 /// fractional differencing, null-aware
-pub fn run_vfdiff<T, V, U, O>(d: f64, v: &V, w: usize, mp: Option<usize>, to: bool) -> Result<Vec<U>, String>
+pub fn run_vfdiff<T, V, U, O>(d: f64, v: &V, w: usize, mp: Option<usize>, to: impl Into<Path>) -> Result<Vec<U>, String>
 where
     T: IsNone,
     T::Inner: Number,
@@ -195,7 +186,7 @@ where
 }
 
 /// fractional differencing, plain
-pub fn run_fdiff<T, V, U, O>(d: f64, v: &V, w: usize, to: bool) -> Result<Vec<U>, String>
+pub fn run_fdiff<T, V, U, O>(d: f64, v: &V, w: usize, to: impl Into<Path>) -> Result<Vec<U>, String>
 where
     T: Cast<f64> + Clone,
     V: Vec1View<T>,
@@ -208,7 +199,7 @@ where
 }
 
 /// the two-series kernels: first series regressed on / correlated with the second
-pub fn run_pair<T, V, V2, U, O>(k: &str, a: &V, b: &V2, w: usize, mp: Option<usize>, to: bool) -> Result<Vec<U>, String>
+pub fn run_pair<T, V, V2, U, O>(k: &str, a: &V, b: &V2, w: usize, mp: Option<usize>, to: impl Into<Path>) -> Result<Vec<U>, String>
 where
     T: IsNone,
     T::Inner: Number,
